@@ -7,7 +7,8 @@ M-Notify: executable model of `defcon.tools.notifications.NotificationCenter`
                 stored in the registration record (`Reg.ident`).
 * `holds`     : `{(notification, observable, observer): {count, notifications, notes}}`
 * `disabled`  : `{(notification, observable, observer): count}`
-* `dead`      : observers whose weak references have died (`kill` op = object collected)
+* `dead`      : objects (observers, senders) whose weak references have died (`kill` op = object
+                collected)
 * `scripts`   : what each observer callback does when invoked (re-entrancy): a one-shot list
                 of operations, run the first time the callback `(observer, method)` fires.
 
@@ -101,17 +102,127 @@ structure Center where
   dead : List Obj := []
   scripts : List ((Obj × Meth) × List Op) := []
 
-/-! ### Glob matching (`fnmatch.fnmatchcase` for patterns made of literals, `*`, `?`) -/
+/-! ### Glob matching: `fnmatch.fnmatchcase(identifier, pattern)`, i.e. the regular expression
+    that `fnmatch.translate` builds (CPython 3.12), read as a token list -/
 
-def glob : List Char → List Char → Bool
-  | [], [] => true
-  | [], _ :: _ => false
-  | '*' :: p, [] => glob p []
-  | '*' :: p, c :: s => glob p (c :: s) || glob ('*' :: p) s
-  | '?' :: p, _ :: s => glob p s
-  | _ :: _, [] => false
-  | c :: p, d :: s => c == d && glob p s
-termination_by p s => p.length + s.length
+inductive Tok where
+  /-- one given character -/
+  | lit (c : Char)
+  /-- `?` -/
+  | any
+  /-- `*` -/
+  | star
+  /-- `[seq]` / `[!seq]`: inclusive character ranges (a single member `x` is the range `x-x`) -/
+  | set (neg : Bool) (items : List (Char × Char))
+deriving DecidableEq, Repr
+
+/-- one member of a bracket expression -/
+inductive Item where
+  | ch (c : Char)
+  | range (lo hi : Char)
+deriving DecidableEq, Repr
+
+def Item.toRange : Item → Char × Char
+  | .ch c => (c, c)
+  | .range lo hi => (lo, hi)
+
+/-- The members of a bracket expression (the text between `[` / `[!` and the closing `]`), as
+`translate` reads it: a `-` that is neither the first character, nor the last, nor one of the two
+characters that follow the upper end of a range joins its neighbours into a range; a range whose
+ends are in the wrong order is dropped altogether ("Remove empty ranges"); everything else -
+backslash, `^`, `[`, `&`, `~`, `|` included, which `translate` escapes - stands for itself. -/
+def rawItems : List Char → List Item
+  | [] => []
+  | [a] => [.ch a]
+  | [a, '-'] => [.ch a, .ch '-']
+  | a :: '-' :: b :: rest => (if a ≤ b then [.range a b] else []) ++ rawItems rest
+  | a :: b :: rest => .ch a :: rawItems (b :: rest)
+
+/-- `translate` decides whether the set is negated AFTER it has dropped the empty ranges, by looking
+at the first character that is left: `[a--!x]` loses `a--` and is read as `[!x]`; a range that
+starts with that `!` loses its lower end and its hyphen becomes a member (`[a--!-c]` = `[!-c]`,
+"neither `-` nor `c`").  `bang` = the pattern had a `!` right after the `[`. -/
+def finishSet (bang : Bool) (its : List Item) : Bool × List (Char × Char) :=
+  if bang then (true, its.map Item.toRange)
+  else match its with
+    | .ch c :: rest => if c = '!' then (true, rest.map Item.toRange) else (false, its.map Item.toRange)
+    | .range lo hi :: rest =>
+      if lo = '!' then (true, ('-', '-') :: (hi, hi) :: rest.map Item.toRange)
+      else (false, its.map Item.toRange)
+    | [] => (false, [])
+
+/-- the characters before the first `]`, and what follows it; `none` when there is no `]` -/
+def untilClose : List Char → Option (List Char × List Char)
+  | [] => none
+  | c :: r =>
+    if c = ']' then some ([], r)
+    else match untilClose r with
+      | none => none
+      | some (b, rest) => some (c :: b, rest)
+
+def dropBang : List Char → Bool × List Char
+  | '!' :: r => (true, r)
+  | p => (false, p)
+
+/-- a `]` that comes first (after the optional `!`) is a member, not the end -/
+def leadClose : List Char → List Char × List Char
+  | ']' :: r => ([']'], r)
+  | p => ([], p)
+
+/-- What follows a `[`: `(negated, members, rest of the pattern)`, or `none` when the bracket is
+never closed (then the `[` stands for itself and the scan resumes right after it). -/
+def splitSet (p : List Char) : Option (Bool × List Char × List Char) :=
+  match untilClose (leadClose (dropBang p).2).2 with
+  | none => none
+  | some (body, rest) => some ((dropBang p).1, (leadClose (dropBang p).2).1 ++ body, rest)
+
+def setTok (x : Bool × List Char × List Char) : Tok :=
+  .set (finishSet x.1 (rawItems x.2.1)).1 (finishSet x.1 (rawItems x.2.1)).2
+
+/-- the scan of `translate`; every step consumes at least one character, `fuel` = pattern length -/
+def tokenizeF : Nat → List Char → List Tok
+  | 0, _ => []
+  | _ + 1, [] => []
+  | f + 1, c :: p =>
+    if c = '*' then .star :: tokenizeF f p
+    else if c = '?' then .any :: tokenizeF f p
+    else if c = '[' then
+      match splitSet p with
+      | none => .lit '[' :: tokenizeF f p
+      | some x => setTok x :: tokenizeF f x.2.2
+    else .lit c :: tokenizeF f p
+
+def tokenize (p : List Char) : List Tok := tokenizeF p.length p
+
+def inSet (items : List (Char × Char)) (c : Char) : Bool :=
+  items.any (fun it => decide (it.1 ≤ c) && decide (c ≤ it.2))
+
+/-- `*`: the rest of the pattern matches some suffix -/
+def starM (f : List Char → Bool) : List Char → Bool
+  | [] => f []
+  | c :: s => f (c :: s) || starM f s
+
+def litM (c : Char) (f : List Char → Bool) : List Char → Bool
+  | [] => false
+  | d :: s => c == d && f s
+
+def anyM (f : List Char → Bool) : List Char → Bool
+  | [] => false
+  | _ :: s => f s
+
+def setM (neg : Bool) (items : List (Char × Char)) (f : List Char → Bool) : List Char → Bool
+  | [] => false
+  | d :: s => (inSet items d != neg) && f s
+
+/-- does the whole string match the token list? -/
+def globT : List Tok → List Char → Bool
+  | [] => fun s => s.isEmpty
+  | .lit c :: ts => litM c (globT ts)
+  | .any :: ts => anyM (globT ts)
+  | .star :: ts => starM (globT ts)
+  | .set neg items :: ts => setM neg items (globT ts)
+
+def glob (p s : List Char) : Bool := globT (tokenize p) s
 
 /-! ### Registry primitives -/
 
@@ -157,13 +268,20 @@ def obsOk : Option Obj → Obj → Bool
 def keyOk (n : Option Name) (s : Option Obj) (k : RKey) : Bool :=
   (n.isNone || k.1 == n) && (s.isNone || k.2 == s)
 
+/-- what dereferencing the weak reference to `x` gives: `none` once `x` has died -/
+def liveRef (c : Center) (x : Obj) : Option Obj := if x ∈ c.dead then none else some x
+
+def liveRef? (c : Center) : Option Obj → Option Obj
+  | none => none
+  | some x => liveRef c x
+
 def findObs (c : Center) (o : Option Obj) (n : Option Name) (s : Option Obj) (pat : Option String) :
     List Found :=
   c.registry.flatMap fun kr =>
     if keyOk n s kr.1 then
       kr.2.filterMap fun r =>
         if identOk pat r.ident && obsOk o r.observer then
-          some ⟨if r.observer ∈ c.dead then none else some r.observer, kr.1.2, kr.1.1, r.ident⟩
+          some ⟨liveRef c r.observer, liveRef? c kr.1.2, kr.1.1, r.ident⟩
         else none
     else []
 
@@ -252,13 +370,18 @@ def post (rec : Center → Op → Center × List Ev) (c : Center) (n : Name) (s 
     | some hk => (enqueue c hk ⟨n, s, d, target⟩, [])
     | none => runAll (deliverKey rec n s d target) c (registryKeys n s)
 
+/-- one queued notification at release: dropped when its sender has died meanwhile (there is no
+object to post it for), posted again - restricted to its observer, if it has one - otherwise -/
+def repost (rec : Center → Op → Center × List Ev) (c : Center) (q : Note) : Center × List Ev :=
+  if q.sender ∈ c.dead then (c, []) else post rec c q.name q.sender q.data q.target
+
 def release (rec : Center → Op → Center × List Ev) (c : Center) (hk : HKey) : Center × List Ev :=
   match AL.get? c.holds hk with
   | none => (c, [.ret (.err .keyError)])
   | some h =>
     if h.count - 1 = 0 then
       let c1 := { c with holds := AL.erase c.holds hk }
-      let (c2, evs) := runAll (fun c (q : Note) => post rec c q.name q.sender q.data q.target) c1 h.queue
+      let (c2, evs) := runAll (repost rec) c1 h.queue
       (c2, evs ++ [.ret .ok])
     else
       ({ c with holds := AL.set c.holds hk { h with count := h.count - 1 } }, [.ret .ok])
